@@ -371,8 +371,8 @@ func (o *c18Oracle) beginCycle(ufrag string) {
 
 func (o *c18Oracle) noteListenFailure(key string) {
 	// key = host/network/addr:port
-	parts := strings.SplitN(key, "/", 3)
-	if len(parts) == 3 {
+	parts := strings.Split(key, "/")
+	if len(parts) >= 3 {
 		if ap, err := netip.ParseAddrPort(parts[2]); err == nil {
 			o.failedIPs[ap.Addr()] = true
 		}
